@@ -157,7 +157,9 @@ int evutil_read_file_(const char *filename, char **content_out, size_t *len_out,
 #define resolv_conf_parse_line real_resolv_conf_parse_line
 #define evdns_base_parse_hosts_line real_evdns_base_parse_hosts_line
 #endif
+#include "dns_typed_alloc_pre.h"
 #include "evdns.c"
+#include "dns_typed_alloc_post.h"
 #ifdef C39_CUT_LINE_PARSERS
 #undef resolv_conf_parse_line
 #undef evdns_base_parse_hosts_line
